@@ -404,6 +404,7 @@ func runC05(c *Ctx) {
 	checkGenericErrorDiscipline(c, "pkg/core")
 	// Diff and Update read both bundles through the file-list / data fan-outs: a lost chunk of entries changes the diff
 	checkCoreFanouts(c)
+	checkUpdateRunsAllPhases(c, "update-metadata.all-phases")
 }
 
 // condShape abstracts the guards of diffBundles: "present" for the ok flag of a map lookup, "hash-differs" for a
@@ -1102,4 +1103,5 @@ func runC10(c *Ctx) {
 	checkSilentSkipOnlyNotExists(c, c.P.BodyOf(c.P.Func("pkg/core.getBundleAsync")), "listing.bundle-skip-only-not-exists")
 	checkNoRelabelAsMissing(c, "listing.no-relabel")
 	checkGenericErrorDiscipline(c, "pkg/core")
+	checkBatchDistributesAllKeys(c, "listing.batch-distributes-all")
 }
